@@ -5,12 +5,14 @@ C15 (b) — the file reloader. Model of `src/config/file.rs`:
         match self.run_once(rate) { Ok(Some(r)) => rate = r, Ok(None) => break, Err(e) => handle_error(&e) } } }
 
   fn run_once(&mut self, rate) -> Result<Option<Duration>> {
+      let mut new_modified = None;
       if let Some(last_modified) = self.modified {
           let modified = fs::metadata(&self.path).and_then(|m| m.modified())?;   -- missing ⇒ Err
           if last_modified == modified { return Ok(Some(rate)); }                 -- mtime short-circuit
-          self.modified = Some(modified);                                         -- BEFORE the read
+          new_modified = Some(modified);
       }
       let source = read_config(&self.path)?;                                      -- unreadable ⇒ Err
+      if new_modified.is_some() { self.modified = new_modified; }                 -- only AFTER the read succeeded
       if source == self.source { return Ok(Some(rate)); }
       self.source = source;                                                       -- BEFORE the parse
       let config = self.format.parse(&self.source)?;                              -- unparsable ⇒ Err
@@ -19,9 +21,15 @@ C15 (b) — the file reloader. Model of `src/config/file.rs`:
       self.handle.set_config(config);
       Ok(rate) }                                                                  -- None ⇒ loop ends
 
+  init_file / VerifReloader::new:  let modified = fs::metadata(..).modified().ok();   -- first look
+                                   let source = read_config(&path)?;                  -- second look
+
 `parse` is abstract: a text either fails to parse or denotes a configuration (identified by a tag)
-and an optional refresh rate. `fixed = false` is the code as it is; `fixed = true` is the proposed
-patch (remember the mtime only after the read succeeded), see finding `mtime-consumed`.
+and an optional refresh rate. The functions carry two variant parameters so that the historical
+behaviour stays expressible: `fixed` (`true` = the code as it is now, since 6066c40: the mtime is
+remembered only after the read succeeded; `false` = before) and, for the initialisation,
+`statsFirst` (`true` = the code as it is now, since b32fc8c; `false` = read first). The constants
+`codeFixed` and `initStatsBeforeRead` say which variant `/repo` is; the driver uses them.
 -/
 namespace Log4rs.Reconfig.Reloader
 
@@ -29,8 +37,8 @@ abbrev Mtime := Nat
 abbrev Rate := Nat
 abbrev ConfigTag := Nat
 
-/-- The model flag of finding `C15/reload-mtime-consumed-by-failed-read`: `false` = `/repo` as it
-is (`self.modified` is assigned before `read_config`). Flip to `true` when the fix is applied. -/
+/-- The model flag of finding `C15/reload-mtime-consumed-by-failed-read`: `true` = `/repo` as it is
+now (fixed by 6066c40); `false` = before (`self.modified` was assigned before `read_config`). -/
 def codeFixed : Bool := true
 
 /-- what the file system shows at the path at the moment of one poll. It is what the path RESOLVES
@@ -124,12 +132,12 @@ def initState (m : Option Mtime) (text : Text) : Option (RState Text) :=
 
 /-- `init_file` / `VerifReloader::new` look at the file twice:
 
-      let source = read_config(&path)?;                                          -- first look
-      let modified = fs::metadata(&path).and_then(|m| m.modified()).ok();         -- second look
+      let modified = fs::metadata(&path).and_then(|m| m.modified()).ok();         -- first look
+      let source = read_config(&path)?;                                          -- second look
 
 `v1` is what the first look finds, `v2` what the second finds (an edit can land in between).
-`statsFirst = false` is the code as it is (read, then stat): the remembered text is `v1`'s, the
-remembered mtime `v2`'s. `statsFirst = true` is the proposed patch (stat, then read). `noMtime`:
+`statsFirst = true` is the code as it is now (stat, then read): the remembered mtime is `v1`'s,
+the remembered text `v2`'s. `statsFirst = false` is the code before b32fc8c (read, then stat). `noMtime`:
 the platform has no mtimes. With `v1 = v2` this is `initState`. -/
 def initState2 (statsFirst noMtime : Bool) (v1 v2 : FileView Text) : Option (RState Text) :=
   let readView := if statsFirst then v2 else v1
@@ -140,7 +148,7 @@ def initState2 (statsFirst noMtime : Bool) (v1 v2 : FileView Text) : Option (RSt
 
 end
 
-/-- The model flag of finding `C15/init-read-then-stat`: `false` = `/repo` as it is. -/
+/-- The model flag of finding `C15/init-read-then-stat`: `true` = `/repo` as it is now (b32fc8c). -/
 def initStatsBeforeRead : Bool := true
 
 /-! ### the real thread (`ConfigReloader::start` / `run`), with time abstracted
